@@ -2911,13 +2911,23 @@ protected:
             format( valCopy);
             auto const  pos = boost::lexical_cast< size_t>( valCopy);
             if (pos >= mDestVar.size())
+            {
+               // "pos + 1" must not wrap around
+               if (pos >= mDestVar.max_size())
+                  throw std::out_of_range( "position " + valCopy + " is too big");
                mDestVar.resize( std::max< size_t>( pos + 1, pos * 1.5));
+            } // end if
             mDestVar[ pos] = !mResetFlags;
          } else
          {
             auto const  pos = boost::lexical_cast< size_t>( listVal);
             if (pos >= mDestVar.size())
+            {
+               // "pos + 1" must not wrap around
+               if (pos >= mDestVar.max_size())
+                  throw std::out_of_range( "position " + listVal + " is too big");
                mDestVar.resize( std::max< size_t>( pos + 1, pos * 1.5));
+            } // end if
             mDestVar[ pos] = !mResetFlags;
          } // end if
       } // end for
